@@ -76,17 +76,19 @@ def bus_delivery_twin(sub_topics: List[int], pub_seq: List[int]) -> bool:
     return log == expected and len(log) >= 2
 
 
-def bus_type_check(pub_topic: int, msg_kind: int) -> bool:
+def bus_type_check(pub_topic: int, msg_kind: int, with_subscribers: bool = True) -> bool:
     """
-    a message of the wrong type is rejected with ValueError and delivered to nobody
+    a message of the wrong type is rejected with ValueError and delivered to nobody, whether or not the topic
+    has subscribers
     pre: 0 <= pub_topic <= 2 and 0 <= msg_kind <= 2
     post: _ == True
     """
     core = uros.Core()
     pubs = [uros.Publisher(core, TOPICS[k], TYPES[k]) for k in range(3)]
     got = []
-    for k in range(3):
-        uros.Subscriber(core, TOPICS[k], TYPES[k], lambda m, k=k: got.append(k))
+    if with_subscribers:
+        for k in range(3):
+            uros.Subscriber(core, TOPICS[k], TYPES[k], lambda m, k=k: got.append(k))
     m = msgs.Imu() if msg_kind == 0 else (msgs.Mag() if msg_kind == 1 else msgs.Attitude())
     p = pubs[0] if pub_topic == 0 else (pubs[1] if pub_topic == 1 else pubs[2])
     try:
@@ -95,16 +97,16 @@ def bus_type_check(pub_topic: int, msg_kind: int) -> bool:
     except ValueError:
         raised = True
     if pub_topic == msg_kind:
-        return (not raised) and got == [pub_topic]
+        return (not raised) and got == ([pub_topic] if with_subscribers else [])
     return raised and got == []
 
 
-def bus_type_check_twin(pub_topic: int, msg_kind: int) -> bool:
+def bus_type_check_twin(pub_topic: int, msg_kind: int, with_subscribers: bool = True) -> bool:
     """
     pre: 0 <= pub_topic <= 2 and 0 <= msg_kind <= 2
     post: _ == False
     """
-    return bus_type_check(pub_topic, msg_kind) and pub_topic != msg_kind
+    return bus_type_check(pub_topic, msg_kind, with_subscribers) and pub_topic != msg_kind and not with_subscribers
 
 
 class _Node:
@@ -213,6 +215,9 @@ def _estimator(initialize: bool):
     eqs = {"constants": constants, "predict": predict, "get_state": get_state, "correct_accel": correct_accel,
            "correct_mag": correct_mag, "initialize": init}
     est = AttitudeEstimator(core, "est", eqs, initialize)
+    # distinct minimum periods, so that a correction gated by the wrong parameter is visible
+    est.dt_min_accel.value = 0.01
+    est.dt_min_mag.value = 0.05
     core.init_params()
     est.msg_est_status = _StatusMsg()
     est.msg_att = _AttMsg()
